@@ -25,6 +25,7 @@ static ERROR_EVENTS: AtomicU64 = AtomicU64::new(0);
 static WARN_EVENTS: AtomicU64 = AtomicU64::new(0);
 static LAST_PANIC: Mutex<Option<String>> = Mutex::new(None);
 static INIT: Once = Once::new();
+static IN_OP: std::sync::atomic::AtomicUsize = std::sync::atomic::AtomicUsize::new(0);
 
 struct CountingSubscriber;
 
@@ -65,7 +66,8 @@ pub fn init_process() {
                 "non-string panic".into()
             };
             *LAST_PANIC.lock().unwrap() = Some(format!("{loc}: {msg}"));
-            if !quiet {
+            // Panics inside a conserve operation are data; anything else is a harness bug.
+            if !quiet || IN_OP.load(Ordering::SeqCst) == 0 {
                 eprintln!("panic at {loc}: {msg}");
             }
         }));
@@ -167,6 +169,7 @@ where
     let w0 = WARN_EVENTS.load(Ordering::SeqCst);
     *LAST_PANIC.lock().unwrap() = None;
     let m2 = monitor.clone();
+    IN_OP.fetch_add(1, Ordering::SeqCst);
     let r = std::panic::catch_unwind(std::panic::AssertUnwindSafe(move || {
         let runtime = match rt {
             Rt::Current => tokio::runtime::Builder::new_current_thread()
@@ -195,6 +198,7 @@ where
         drop(runtime);
         out
     }));
+    IN_OP.fetch_sub(1, Ordering::SeqCst);
     let monitor_errors: Vec<String> = monitor
         .take_errors()
         .into_iter()
@@ -482,4 +486,34 @@ pub fn source_walk(source: &Path, exclude: &[String]) -> OpReport<Vec<String>> {
         })
         .collect())
     })
+}
+
+pub fn band_is_closed(archive: &Path, band: u32) -> OpReport<bool> {
+    run_op(move |_m| async move {
+        let a = Archive::open(transport(archive, &None)).await?;
+        a.band_is_closed(BandId::from(band)).await
+    })
+}
+
+/// Compare a conserve IndexEntry with an independently decoded one.
+pub fn entry_matches(e: &IndexEntry, r: &crate::format::RawEntry) -> bool {
+    let kind = match e.kind {
+        conserve::Kind::File => "File",
+        conserve::Kind::Dir => "Dir",
+        conserve::Kind::Symlink => "Symlink",
+        conserve::Kind::Unknown => "Unknown",
+    };
+    e.apath.to_string() == r.apath
+        && kind == r.kind
+        && e.mtime == r.mtime
+        && e.mtime_nanos as u64 == r.mtime_nanos
+        && e.target == r.target
+        && e.owner.user == r.user
+        && e.owner.group == r.group
+        && e.addrs.len() == r.addrs.len()
+        && e
+            .addrs
+            .iter()
+            .zip(r.addrs.iter())
+            .all(|(a, b)| a.hash.to_string() == b.hash && a.start == b.start && a.len == b.len)
 }
